@@ -43,13 +43,18 @@ SetAtoms(tag) == { [k |-> kk, tag |-> tag, set |-> S] : kk \in {"in_set", "not_i
 Atoms == UNION {RangeAtoms(8) \cup SetAtoms(8) : x \in {1}} \cup SetAtoms(0) \cup { [k |-> "reveal", tag |-> t] : t \in Tags }
          \cup { [k |-> "in_range", tag |-> 3, lo |-> 11, hi |-> 12], [k |-> "in_range", tag |-> 3, lo |-> 12, hi |-> 12], [k |-> "in_range", tag |-> 3, lo |-> 10, hi |-> 11] }
 Perturbations == {"none", "challenge", "credential", "commitments", "statement", "proof", "version"}
+(* verifiable presentations: the same statements inside a request with a context, about an account credential (commitments on chain) or a
+   web3 credential (commitments signed by the issuer, presentation linked to the holder's key by a signature over context and proofs) *)
+PresPerturbations == {"none", "context", "public_data", "credential_id", "statement", "foreign_proof", "foreign_linking"}
 
-VARIABLES attrs, stmt, perturb
-svars == <<attrs, stmt, perturb>>
+VARIABLES attrs, stmt, perturb, via
+svars == <<attrs, stmt, perturb, via>>
 SInit == /\ attrs \in SomeAttrs
+         /\ via \in {"commitments", "account_presentation", "web3_presentation"}
          /\ stmt \in {<<a>> : a \in Atoms} \cup {<<a, b>> : a \in SetAtoms(0) \cup {[k |-> "reveal", tag |-> 0]}, b \in RangeAtoms(8)}
-         /\ perturb \in Perturbations
+         /\ perturb \in (IF via = "commitments" THEN Perturbations ELSE PresPerturbations)
          /\ (perturb # "none" => Len(stmt) = 1)
+         /\ (via # "commitments" => (attrs[0] = 5 /\ (Len(stmt) = 2 \/ stmt[1].tag = 8 \/ stmt[1].k = "reveal")))
 SSpec == SInit /\ [][UNCHANGED svars]_svars
 
 Truth == StmtTrue(stmt, attrs)
@@ -58,6 +63,6 @@ Accept == StmtProvable(stmt, attrs) /\ perturb = "none"
 EmptyRange == \A i \in 1..Len(stmt) : (stmt[i].k = "in_range" /\ stmt[i].lo >= stmt[i].hi) => ~AtomTrue(stmt[i], attrs)
 Complementary == \A i \in 1..Len(stmt) : stmt[i].k = "in_set" => (AtomTrue(stmt[i], attrs) # AtomTrue([stmt[i] EXCEPT !.k = "not_in_set"], attrs))
 StExport == PrintT(<<"REPLAY", ToJson([kind |-> "statement", vals |-> AttrVals, attrs |-> [t \in {"0", "3", "8"} |-> attrs[IF t = "0" THEN 0 ELSE IF t = "3" THEN 3 ELSE 8]],
-                                       stmt |-> [i \in 1..Len(stmt) |-> IF "set" \in DOMAIN stmt[i] THEN [stmt[i] EXCEPT !.set = SetSeq(@)] ELSE stmt[i]],
+                                       via |-> via, stmt |-> [i \in 1..Len(stmt) |-> IF "set" \in DOMAIN stmt[i] THEN [stmt[i] EXCEPT !.set = SetSeq(@)] ELSE stmt[i]],
                                        perturb |-> perturb, truth |-> Truth, accept |-> Accept])>>)
 =============================================================================
